@@ -239,12 +239,16 @@ func NewWorld(seed uint64, p Profile, idx *TxIndex) *World {
 		if p.RichGenesis && i > 0 {
 			// what a state exported from a running chain contains: validators in jail, validators that are unstaking
 			// (a staked validator in jail is refused by pos.ValidateGenesis: not generated)
-			switch r.Intn(4) {
+			kind := r.Intn(4)
+			if i == 1 {
+				kind = 0 // every rich genesis has a validator that is unstaking and in jail
+			}
+			switch kind {
 			case 0:
 				gv.Unstaking, gv.Jailed = true, true
 				gv.JailedUntil = GenesisTime.Add(time.Duration(r.PickI64(-3600, 60, 600, 3600)) * time.Second)
 				gv.Completion = GenesisTime.Add(time.Duration(r.PickI64(30, 600, 7200)) * time.Second)
-				gv.Tombstoned = r.Chance(40) // convicted on the exported chain; its jailed-until may be an ordinary time
+				gv.Tombstoned = r.Chance(40) || (i == 1 && r.Bool()) // convicted on the exported chain; its jailed-until may be an ordinary time
 			case 1:
 				gv.Unstaking = true
 				gv.Completion = GenesisTime.Add(time.Duration(r.PickI64(30, 600, 7200)) * time.Second)
